@@ -125,8 +125,12 @@ fn search(args: &HiArgs, mode: SearchMode) -> anyhow::Result<bool> {
         searched = true;
         let search_result = match searcher.search(&haystack) {
             Ok(search_result) => search_result,
-            // A broken pipe means graceful termination.
-            Err(err) if err.kind() == std::io::ErrorKind::BrokenPipe => break,
+            // A broken pipe means graceful termination. Bubble it up so that
+            // `main` exits successfully, whether or not a match was recorded
+            // before the consumer went away.
+            Err(err) if err.kind() == std::io::ErrorKind::BrokenPipe => {
+                return Err(err.into());
+            }
             Err(err) => {
                 err_message!("{}: {}", haystack.path().display(), err);
                 continue;
@@ -166,6 +170,7 @@ fn search_parallel(args: &HiArgs, mode: SearchMode) -> anyhow::Result<bool> {
     let stats = args.stats().map(std::sync::Mutex::new);
     let matched = AtomicBool::new(false);
     let searched = AtomicBool::new(false);
+    let broken_pipe = AtomicBool::new(false);
 
     let mut searcher = args.search_worker(
         args.matcher()?,
@@ -177,6 +182,7 @@ fn search_parallel(args: &HiArgs, mode: SearchMode) -> anyhow::Result<bool> {
         let stats = &stats;
         let matched = &matched;
         let searched = &searched;
+        let broken_pipe = &broken_pipe;
         let haystack_builder = &haystack_builder;
         let mut searcher = searcher.clone();
 
@@ -204,6 +210,7 @@ fn search_parallel(args: &HiArgs, mode: SearchMode) -> anyhow::Result<bool> {
             if let Err(err) = bufwtr.print(searcher.printer().get_mut()) {
                 // A broken pipe means graceful termination.
                 if err.kind() == std::io::ErrorKind::BrokenPipe {
+                    broken_pipe.store(true, Ordering::SeqCst);
                     return WalkState::Quit;
                 }
                 // Otherwise, we continue on our merry way.
@@ -216,6 +223,10 @@ fn search_parallel(args: &HiArgs, mode: SearchMode) -> anyhow::Result<bool> {
             }
         })
     });
+    if broken_pipe.load(Ordering::SeqCst) {
+        // As in the single threaded case: let `main` exit successfully.
+        return Err(std::io::Error::from(std::io::ErrorKind::BrokenPipe).into());
+    }
     if args.has_implicit_path() && !searched.load(Ordering::SeqCst) {
         eprint_nothing_searched();
     }
